@@ -134,28 +134,53 @@ SubframeBits(sub, ch0, bs, bps0) ==
 (* the 33-bit side channel of 32-bit audio, CONSTANT or VERBATIM: l - r without ever forming it *)
 Side33(l, r) == WSub(WOf(l), WOf(r))
 Put33(p) == PutS(p[1], 17) \o PutU(p[2], 16)
+\* residuals of a predictor on pair-valued samples: each must be a 32-bit value other than -2^31
+ResidualsW(ws, coef, shift) ==
+    LET ord == Len(coef)
+        R(i) == LET pw == IF ord = 0 THEN <<TRUE, <<0, 0>> >> ELSE PredPairs(ws, ord + i - 1, coef, ord, shift)
+                    d == WSub(ws[ord + i], pw[2])
+                IN IF pw[1] /\ WFits32(d) /\ d # <<-32768, 0>> THEN <<TRUE, WInt(d)>> ELSE <<FALSE, 0>>
+        all == [i \in 1..(Len(ws) - ord) |-> R(i)]
+    IN [ok |-> \A i \in 1..Len(all) : all[i][1], res |-> [i \in 1..Len(all) |-> all[i][2]]]
+WShr(a, w) == <<a[1] \div P2(w), (a[1] % P2(w)) * P2(16 - w) + (a[2] \div P2(w))>>        \* floor(a / 2^w), w <= 16
 WideSideBits(sub, L, R, bs) ==
     LET ov == Get(sub, "ov", [none |-> 0])
         \* "wide" override: arbitrary <<hi, lo>> side values unrelated to left / right
         side == IF Has(ov, "wide") THEN [i \in 1..bs |-> ov.wide[((i - 1) % Len(ov.wide)) + 1]] ELSE [i \in 1..bs |-> Side33(L[i], R[i])]
-        \* a predictor on the 33-bit channel, given directly by its fields (warm-up pairs "wide", residuals "res"): what it expands to is
-        \* outside the model (FlacFormat: "unsupported:33bit"), so such frames only serve the must-not-panic / bounded-memory contract
+        \* a predictor given directly by its fields (warm-up pairs "wide", residuals "res"): nothing ties the residuals to samples, the
+        \* values may grow past 33 bits at every step - such frames serve the must-not-panic / bounded-memory contract
         raw == sub.type \in {"fixed", "lpc"} /\ Has(ov, "wide") /\ Has(ov, "res") /\ sub.order <= bs
-        ty == IF raw THEN sub.type ELSE IF sub.type = "constant" THEN "constant" ELSE "verbatim"
-        ord == IF raw THEN sub.order ELSE 0
-        coef == IF ~raw THEN <<>> ELSE IF ty = "fixed" THEN FixedC[ord + 1] ELSE sub.coefs
-        res == IF raw THEN [i \in 1..(bs - ord) |-> ov.res[((i - 1) % Len(ov.res)) + 1]] ELSE <<>>
+        pred == sub.type \in {"fixed", "lpc"} /\ "order" \in DOMAIN sub /\ sub.order <= bs
+        \* wasted bits (the plan's count, when every value really has them): the subframe is then an ordinary one of 33 - w bits
+        w0 == Get(sub, "wasted", 0)
+        w == IF ~raw /\ w0 \in 1..16 /\ (\A i \in 1..bs : side[i][2] % P2(w0) = 0) THEN w0 ELSE 0
+        ty == IF pred THEN sub.type ELSE IF sub.type = "constant" THEN "constant" ELSE "verbatim"
+        ord == IF pred THEN sub.order ELSE 0
+        coef == IF ~pred THEN <<>> ELSE IF ty = "fixed" THEN FixedC[ord + 1] ELSE sub.coefs
+        shift == IF ty = "lpc" THEN sub.shift ELSE 0
+        rr == IF raw THEN [ok |-> TRUE, res |-> [i \in 1..(bs - ord) |-> ov.res[((i - 1) % Len(ov.res)) + 1]]]
+              ELSE IF pred /\ w = 0 THEN ResidualsW(side, coef, shift) ELSE [ok |-> TRUE, res |-> <<>>]
         method == Get(sub, "method", 0)
         po == Get(sub, "po", 0)
         params == Get(sub, "params", << <<"esc", 31>> >>)
         valid == /\ (ty = "constant" => \A i \in 1..bs : side[i] = side[1])
-                 /\ (raw => ResidualFits(res, bs, ord, method, po, params))
+                 /\ rr.ok
+                 /\ (pred /\ w = 0 => ResidualFits(rr.res, bs, ord, method, po, params))
+                 /\ (ty = "lpc" /\ w = 0 => \A c \in 1..Len(coef) : EscFits(coef[c], sub.precision))
         warm == FoldLeft(LAMBDA a, i : a \o Put33(side[i]), <<>>, [i \in 1..ord |-> i])
-        pbody == warm \o (IF ty = "lpc" THEN PutU(sub.precision - 1, 4) \o PutS(sub.shift, 5)
+        pbody == warm \o (IF ty = "lpc" THEN PutU(sub.precision - 1, 4) \o PutS(shift, 5)
                                             \o FoldLeft(LAMBDA a, c : a \o PutS(c, sub.precision), <<>>, coef) ELSE <<>>)
-                      \o ResidualBits(res, bs, ord, method, po, params)
-    IN [bits |-> IF ~valid THEN <<>>
-                 ELSE IF raw THEN <<0>> \o PutU(IF ty = "fixed" THEN 8 + ord ELSE 31 + ord, 6) \o <<0>> \o pbody
+                      \o ResidualBits(rr.res, bs, ord, method, po, params)
+        \* with wasted bits: the narrow machinery on the shifted values, its "no wasted bits" flag replaced by the unary count
+        nsub == [k \in DOMAIN sub |-> IF k = "wasted" THEN 0 ELSE sub[k]]
+        nr == SubframeBits(nsub, [i \in 1..bs |-> WInt(WShr(side[i], w))], bs, 33 - w)
+    IN IF w >= 1
+       THEN [bits |-> IF nr.ok /\ Len(nr.bits) >= 8 /\ nr.bits[8] = 0
+                      THEN SubSeq(nr.bits, 1, 7) \o <<1>> \o PutUnary(w - 1) \o SubSeq(nr.bits, 9, Len(nr.bits)) ELSE <<>>,
+             ok |-> nr.ok /\ Len(nr.bits) >= 8 /\ nr.bits[8] = 0]
+       ELSE
+       [bits |-> IF ~valid THEN <<>>
+                 ELSE IF pred THEN <<0>> \o PutU(IF ty = "fixed" THEN 8 + ord ELSE 31 + ord, 6) \o <<0>> \o pbody
                  ELSE <<0>> \o PutU(IF ty = "constant" THEN 0 ELSE 1, 6) \o <<0>>
                       \o (IF ty = "constant" THEN Put33(side[1]) ELSE FoldLeft(LAMBDA a, x : a \o Put33(x), <<>>, side)),
         ok |-> valid]
